@@ -26,6 +26,7 @@ import (
 	"kvassverif/cycle"
 	"kvassverif/sched"
 
+	"kvassverif/sidecarsim"
 	"tkestack.io/kvass/pkg/discovery"
 	"tkestack.io/kvass/pkg/explore"
 	"tkestack.io/kvass/pkg/prom"
@@ -34,13 +35,13 @@ import (
 
 // Probe is one parked explorer probe.
 type Probe struct {
-	Host string
-	URL  string
-	At   time.Time
+	Host   string
+	URL    string
+	At     time.Time
 	DoneAt time.Time // fake time at which the transport returned
-	arr  int
-	ch   chan probeVerdict
-	Done bool
+	arr    int
+	ch     chan probeVerdict
+	Done   bool
 }
 
 type probeVerdict struct {
@@ -57,10 +58,16 @@ type ProbeNet struct {
 	Started []*Probe // every probe that reached the transport, in arrival order
 }
 
-type brokenBody struct{ data []byte }
+type brokenBody struct {
+	data []byte
+	err  error // nil: closed early (unexpected EOF)
+}
 
 func (b *brokenBody) Read(p []byte) (int, error) {
 	if len(b.data) == 0 {
+		if b.err != nil {
+			return 0, b.err
+		}
 		return 0, io.ErrUnexpectedEOF
 	}
 	n := copy(p, b.data)
@@ -107,6 +114,9 @@ func (n *ProbeNet) RoundTrip(req *http.Request) (*http.Response, error) {
 	case "break":
 		half := v.payload[:len(v.payload)/2]
 		return mk(200, &brokenBody{data: append([]byte(nil), half...)}), nil
+	case "reset": // the target's connection is reset in the middle of the body
+		half := v.payload[:len(v.payload)/2]
+		return mk(200, &brokenBody{data: append([]byte(nil), half...), err: sidecarsim.ErrReset}), nil
 	}
 	return mk(200, io.NopCloser(strings.NewReader(string(v.payload)))), nil
 }
